@@ -6,7 +6,10 @@ Tie: a fixed small object graph (two structs with scalar, nested-struct and arra
 array, two int arrays, a scalar, a struct pointer and an int pointer); (1) the matrix of every operation kind
 alone, (2) random histories of operations; after every operation every cell is read through every available
 access path (plain, pointer, dereference, interpolation, by-value parameter, reference parameter, method) and
-compared with the shadow heap computed by cbdriver c07.
+compared with the shadow heap computed by cbdriver c07; (3) typed members: a struct with string / double / long / bool / int
+members under 14 operation kinds (reference parameters with literal and variable right-hand sides, pointer stores, by-value
+calls, returned copies, methods, member-wise copies), every cell read through plain names, a by-value call, interpolation,
+methods and the pointer after every operation, against a shadow kept by the harness (the heap laws do not depend on the leaf type).
 """
 import json, os
 import common
@@ -821,6 +824,22 @@ def main(a):
             [op[1] for op in ops], d3[0] if d3 else "-", d3[1] if d3 else "", d3[2] if d3 else "", o3[0][1]),
             {"program": p3[0], "expected_stdout": exp3, "impl_stdout": o3[0][0], "impl_exit_class": o3[0][1],
              "impl_stderr": o3[0][2][-300:], "ops": [op[1] for op in ops]})
+    # ---- typed members (string / double / long / bool) through the same kinds of access path
+    tn = 60 if quick else 6000
+    tcases = [typed_case(r, 1 if k < tn // 2 else r.range(2, 6)) for k in range(tn)]
+    touts = common.run_programs(exe, [c[0] for c in tcases], timeout=10)
+    dist["typed-members"] = len(tcases)
+    for (src, exp, kinds_used), o in zip(tcases, touts):
+        nontrivial.add(("typed", tuple(kinds_used)))
+        if o[0] == exp and o[1] == "ok":
+            continue
+        d = first_diff(exp, o[0])
+        if os.environ.get("CB_VERIF_CENSUS"):
+            census.setdefault(("typed", tuple(kinds_used[:1]), o[1]), []).append("%s | %s" % (kinds_used, d))
+            continue
+        report("typed-members", "after %s: first difference at line %s: expected %r got %r (%s)" % (
+            kinds_used, d[0] if d else "-", d[1] if d else "", d[2] if d else "", o[1]),
+            {"program": src, "expected_stdout": exp, "impl_stdout": o[0], "impl_exit_class": o[1], "impl_stderr": o[2][-300:], "ops": kinds_used})
     for key, whats in sorted(census.items(), key=lambda kv: str(kv[0])):
         common.log("CENSUS %s x%d: %s" % (key, len(whats), whats[0][:260]))
     for f in findings:
